@@ -18,6 +18,26 @@ package revision
 //@ site (resource.Finalizer).RemoveFinalizer(_, _, $o)
 //@   assert [C08:finalizer-only-when-deleted] $o == $pr && meta.WasDeleted($pr)
 //@   assert [C08:finalizer-after-lock-removal] lockRemoved
+//@ ghost parsed bool = false
+//@ ghost linted bool = false
+//@ ghost compatible bool = false
+//@ let $pkg = result (parser.Parser).Parse
+//@ site (parser.Parser).Parse(_, _, _)
+//@   update parsed = err == nil
+//@ site (parser.Linter).Lint(_, $p)
+//@   assert [C15:lints-the-parsed-package] parsed && $p == $pkg
+//@   update linted = err == nil
+//@ site functype:parser.ObjectLinterFn(_)
+//@   update compatible = err == nil
+//@ site (revision.Establisher).Establish(_, _, $objs, $parent, $control)
+//@   assert [C15:established-objects-are-the-parsed-ones] parsed && $objs == $pkg.GetObjects()
+//@   assert [C15:established-only-after-lint] linted
+//@   assert [C15:established-only-with-one-meta] len($pkg.GetMeta()) == 1
+//@   assert [C15:established-only-if-compatible] compatible || ($pr.GetIgnoreCrossplaneConstraints() != nil && *$pr.GetIgnoreCrossplaneConstraints())
+//@   assert [C15:established-only-if-verified] r.features.Enabled(features.EnableAlphaSignatureVerification) ==> $pr.GetCondition(v1.TypeVerified).Status == "True"
+//@   assert [C15:established-for-this-revision] $parent == $pr && ($control <==> $pr.GetDesiredState() == "Active")
+//@ optional site (xpkg.PackageCache).Delete(_, $k)
+//@   assert [C15:cache-entry-named-after-revision-or-source] $k == $pr.GetName() || ($pr.GetPackagePullPolicy() != nil && *$pr.GetPackagePullPolicy() == "Never" && $k == $pr.GetSource())
 
 //@ func (*revision.PackageDependencyManager).RemoveSelf
 //@ props C08
@@ -114,3 +134,14 @@ package revision
 //@ optional site (client.Writer).Update(_, _, $o)
 //@   assert [C16:release-updates-the-fetched-object] $o == &u
 //@   update written = err == nil
+
+// C15 (gating): the establisher receives exactly the objects of the package that was parsed
+// in this reconcile, and only after that package linted clean, has exactly one meta object,
+// meets the Crossplane version constraints (unless told to ignore them) and - when signature
+// verification is enabled - the revision's Verified condition is True. The package cache is
+// written under the revision's own name.
+
+//@ func (*revision.Reconciler).Reconcile$1
+//@ props C15
+//@ site (xpkg.PackageCache).Store(_, $k, _)
+//@   assert [C15:cache-written-under-revision-name] $k == pr.GetName()
